@@ -811,6 +811,13 @@ func (x *reasm) lessSemantics() {
 			}
 			absOK = n == 2
 		}
+		// the same function written with the builtin: max(x, -x)
+		if len(ps) == 1 {
+			if ret := ps[0].Return(); ret != nil && len(ret.Results) == 1 {
+				t := Term(ret.Results[0])
+				absOK = t == "max(p0, -p0)" || t == "max(-p0, p0)"
+			}
+		}
 		r.Check(absOK, "abs", x.absFn.Pos(), "abs returns -x for x<0 and x otherwise", "abs is not the absolute value")
 	}
 
@@ -2087,7 +2094,11 @@ func propC11(r *Run, w *World) {
 		}
 	}
 	reviewed := map[string]bool{"time.Now": true, "(time.Time).Add": true, "(time.Time).After": true, "(time.Time).Before": true, "sort.Sort": true,
-		"len": true, "cap": true, "append": true, "delete": true, "copy": true, "(*sync.Mutex).Unlock": true}
+		"len": true, "cap": true, "append": true, "delete": true, "copy": true, "min": true, "max": true, "clear": true, "(*sync.Mutex).Unlock": true,
+		// word-sized atomic operations neither block nor call back
+		"sync/atomic.AddInt32": true, "sync/atomic.AddInt64": true, "sync/atomic.AddUint32": true, "sync/atomic.AddUint64": true,
+		"sync/atomic.LoadInt32": true, "sync/atomic.LoadInt64": true, "sync/atomic.LoadUint32": true, "sync/atomic.LoadUint64": true,
+		"sync/atomic.StoreInt32": true, "sync/atomic.StoreInt64": true, "sync/atomic.StoreUint32": true, "sync/atomic.StoreUint64": true}
 	for _, fn := range w.PkgFuncs("libaudit") {
 		instrsOf(fn, func(in ssa.Instruction) {
 			ci, ok := in.(ssa.CallInstruction)
@@ -2117,6 +2128,8 @@ func propC11(r *Run, w *World) {
 				r.OK(key, in.Pos(), "repository function, analysed with the lock inherited")
 			case reviewed[n]:
 				r.OK(key, in.Pos(), "reviewed callee")
+			case w.deadHookCall(ci.Common()):
+				r.OK(key, in.Pos(), "a hook variable that nothing in the repository ever assigns: the call never runs")
 			case ci.Common().IsInvoke():
 				r.Fail(key, in.Pos(), "interface method invoked while holding the eventList mutex")
 			default:
